@@ -1,8 +1,122 @@
-(* C09 — property theorems (statements only). *)
+(* C09 — property theorems (statements only; proofs in Inv.v / Abs.v / Safety.v / Render.v /
+   Conserve.v / Sound.v / Final.v).
+
+   Reading guide.  [step e w o] / [run e w ops] is the byte-level model of PayloadWriter (Model.v);
+   [fx e = all_fixed] selects the code after the three `fix:` commits.  [Winv w] is the invariant at
+   operation boundaries: [Rep w fs] = the buffer is the concatenation of the frames of the bodies
+   [fs], each within the limit, followed by one 4-byte placeholder iff length-prefixed, and
+   [offsets] are the frames' end positions.  [parse_msg], [unframe], [msg_len], [kept], [expect],
+   [counts_ok], [spec_check] are the specification (Spec.v); [render] is the message printer the
+   model is proved to coincide with (Render.v).                                                   *)
 From Coq Require Import List NArith Bool.
 Import ListNotations.
-Require Import MV.C09.Model MV.C09.Spec MV.C09.Exec.
+Require Import MV.C09.Model MV.C09.Spec MV.C09.Exec MV.C09.Inv MV.C09.Abs MV.C09.Safety MV.C09.Render
+               MV.C09.Conserve MV.C09.Sound MV.C09.Final.
 Open Scope N_scope.
 
-Theorem C09_placeholder : True.
-Proof. exact I. Qed.
+(* the constructor establishes the invariant *)
+Theorem C09_new_establishes_invariant : forall mx l, mx < two32 ->
+  exists w, new mx l = Ok w /\ Winv w /\ max w = mx /\ lp w = l.
+Proof. exact winv_new. Qed.
+
+(* no operation panics from an invariant state, and the invariant is preserved by every operation,
+   including rejected writes and (partial) drains *)
+Theorem C09_total : forall e w o, fx e = all_fixed -> Winv w ->
+  exists w' x, step e w o = Ok (w', x) /\ x <> OPanic /\ Winv w' /\ max w' = max w /\ lp w' = lp w.
+Proof. exact winv_step. Qed.
+
+Theorem C09_total_sequences : forall e ops, fx e = all_fixed -> forall w, Winv w ->
+  ~ In OPanic (run e w ops).
+Proof. exact run_no_panic. Qed.
+
+Theorem C09_one_output_per_operation : forall e ops, fx e = all_fixed -> forall w, Winv w ->
+  length (run e w ops) = length ops.
+Proof. exact run_length. Qed.
+
+(* every payload yielded by any drain of any sequence: body within the limit, exact framing *)
+Theorem C09_len_bound : forall e ops, fx e = all_fixed -> forall w a ps p,
+  Winv w -> In (OPayloads a ps) (run e w ops) -> In p ps ->
+  exists body, p = frame (lp w) body /\ len body <= max w.
+Proof. exact yielded_framed. Qed.
+
+Theorem C09_framing : forall c w ops a ps p,
+  fx (c_env c) = all_fixed -> Winv w -> max w = c_max c -> lp w = c_lp c -> c_max c < two32 ->
+  In (OPayloads a ps) (run (c_env c) w ops) -> In p ps ->
+  exists body, unframe c p = Some body /\ p = frame (c_lp c) body.
+Proof. exact unframe_on_model. Qed.
+
+(* a drain yields, in order, the frames of the first k committed bodies and empties the writer *)
+Theorem C09_drain_yields_committed : forall e w fs k, fx e = all_fixed -> Rep w fs ->
+  exists w', step e w (Drain k)
+             = Ok (w', OPayloads (len fs) (firstn (drain_count k fs) (map (frame (lp w)) fs))) /\
+             Rep w' [] /\ max w' = max w /\ lp w' = lp w.
+Proof. exact drain_yields_committed. Qed.
+
+(* one write call: the bodies it commits are the renderings of the expected message over a split
+   [chunks] of exactly the values that fit; payloads_written / points_dropped count them *)
+Theorem C09_point_conservation : forall c w fs o,
+  fx (c_env c) = all_fixed -> Rep w fs -> max w = c_max c -> is_write o -> values_nonempty o = true ->
+  exists w' pw pd chunks,
+    step (c_env c) w o = Ok (w', OWrite pw pd) /\
+    Rep w' (fs ++ map (fun ch => render (expect c o ch)) chunks) /\
+    Forall (fun ch => ch <> []) chunks /\
+    concat chunks = kept c o /\
+    pw = len chunks /\
+    pd + len (kept c o) = len (op_values o).
+Proof. exact write_conservation. Qed.
+
+Theorem C09_write_result_meets_spec : forall c w o,
+  fx (c_env c) = all_fixed -> Winv w -> max w = c_max c ->
+  (match o with Drain _ => False | _ => True end) -> values_nonempty o = true ->
+  exists w' pw pd, step (c_env c) w o = Ok (w', OWrite pw pd) /\ counts_ok c o pw pd = true.
+Proof. exact counts_ok_on_model. Qed.
+
+(* the rendered message has the declared length and is read back by the independent parser *)
+Theorem C09_render_length : forall m, len (render m) = msg_len m.
+Proof. exact render_len. Qed.
+
+Theorem C09_message_roundtrip : forall m, wf_msg m = true -> m_values m <> [] ->
+  parse_msg (render m) = Some m.
+Proof. exact parse_render. Qed.
+
+Theorem C09_emitted_message_roundtrip : forall c o chunks ch,
+  concat chunks = kept c o -> In ch chunks -> ch <> [] ->
+  wf_msg (expect c o (op_values o)) = true ->
+  parse_msg (render (expect c o ch)) = Some (expect c o ch).
+Proof. exact emitted_message_roundtrip. Qed.
+
+(* full statement:  forall c, spec_ok c (run_case c) = true.
+   Proved: totality, one output per operation, and the framing/size clause of spec_ok on every
+   yielded payload; the WriteResult clause is C09_write_result_meets_spec; the message and
+   conservation clause is proved per write (C09_point_conservation, C09_emitted_message_roundtrip)
+   but not composed with the checker's pending-payload bookkeeping over whole sequences. *)
+Theorem C09_spec_ok_on_model_partial : forall c, k_max c < two32 ->
+  ~ In OPanic (run_case c) /\ length (run_case c) = length (k_ops c) /\
+  forall a ps p, In (OPayloads a ps) (run_case c) -> In p ps ->
+    exists body, unframe (cfg_of impl_fixes c) p = Some body /\ p = frame (k_lp c) body.
+Proof. exact spec_ok_on_model_partial. Qed.
+
+(* the code as found (each repair switched off separately) violates the property *)
+Theorem C09_framing_refuted_before_fix_drop :
+  exists c ops, fx (c_env c) = {| fix_drop := false; fix_reject := true; fix_prefix := true |} /\
+    spec_check c ops (run_cfg c ops) = false /\
+    exists a p body, nth 3 (run_cfg c ops) OPanic = OPayloads a [p] /\ unframe c p = Some body /\
+                     parse_msg body = None /\ len body + 4 = 9 (* "ab:2.0|g\n" *).
+Proof. exact framing_refuted_before_fix_drop. Qed.
+
+Theorem C09_framing_refuted_before_fix_reject :
+  exists c ops, fx (c_env c) = {| fix_drop := true; fix_reject := false; fix_prefix := true |} /\
+    spec_check c ops (run_cfg c ops) = false /\
+    exists a p body, nth 2 (run_cfg c ops) OPanic = OPayloads a [p] /\ unframe c p = Some body /\
+                     parse_msg body = None /\ len body + 4 = 8 (* "a:2.0|g\n" *).
+Proof. exact framing_refuted_before_fix_reject. Qed.
+
+Theorem C09_total_refuted_before_fix_prefix :
+  exists c ops, fx (c_env c) = {| fix_drop := true; fix_reject := true; fix_prefix := false |} /\
+    c_max c < two32 /\ In OPanic (run_cfg c ops).
+Proof. exact total_refuted_before_fix_prefix. Qed.
+
+Theorem C09_total_refuted_before_fix_drop :
+  exists c ops, fx (c_env c) = {| fix_drop := false; fix_reject := true; fix_prefix := true |} /\
+    c_max c < two32 /\ In OPanic (run_cfg c ops).
+Proof. exact total_refuted_before_fix_drop. Qed.
